@@ -94,5 +94,9 @@ package types
 
 // creating the client records the processing time of the initial consensus state under the client's latest height
 // verif:func (ClientState).Initialize
+//@ nopanic dryrun
 //@ modifies clientStore
 //@ ensures [processed-time] result == nil ==> kvget(clientStore, ProcessedTimeKey(cs.LatestHeight)) == sdk.Uint64ToBigEndian(uint64(blocktime(ctx).UnixNano()))
+
+// verif:func (ClientState).UpgradeState
+//@ nopanic dryrun
